@@ -75,6 +75,7 @@ class HttpStreamSpec(LayerSpec):
     )
     dispatch_attrs = ("self.client_state", "self.server_state")
     max_depth = 9
+    label_inlined_call = True
 
     def __init__(self, model):
         super().__init__(model, REL, CLS)
@@ -85,6 +86,9 @@ class HttpStreamSpec(LayerSpec):
     # ---- events
     def events(self, node, st):
         out = []
+        if isinstance(node, ast.Call) and attr_chain(node.func) == "self.check_killed":
+            # entry of the (inlined) kill check
+            return [("ck",)]
         for n in eval_order(node):
             if isinstance(n, ast.Yield):
                 v = n.value
